@@ -231,6 +231,12 @@ func c17hist(c *Ctx) {
 					c.R.Add("placeholder_like_titles_tried", 1)
 				}
 				if r.P(5) {
+					// a title that holds a multi-byte character AND a byte that is no valid UTF-8 (a name cut out of Latin-1
+					// text): every width still gives a tag of that many characters
+					rl.title = gen.Pick(r, []string{"r\xe9sum\u00e9s", "\u00fcb\xfcr-x", "na\u00efve\xff-lvl", "\xc3caf\u00e9-y"}) + fmt.Sprint(r.Intn(4))
+					c.R.Add("titles_with_a_multibyte_character_and_an_invalid_byte_tried", 1)
+				}
+				if r.P(5) {
 					// a title longer than any stock name (33+ bytes; in other scripts that is 11-17 characters)
 					rl.title = gen.Pick(r, []string{"a-level-name-that-is-rather-long-", "\u76e3\u67fb\u30ed\u30b0\u91cd\u8981\u5ea6\u30ec\u30d9\u30eb\u756a\u53f7", "\u0443\u0440\u043e\u0432\u0435\u043d\u044c-\u0436\u0443\u0440\u043d\u0430\u043b\u0430-", strings.Repeat("x", 64)}) + fmt.Sprint(int(rl.val))
 					c.R.Add("titles_longer_than_32_bytes_tried", 1)
@@ -279,8 +285,22 @@ func c17hist(c *Ctx) {
 				}
 				if r.P(40) {
 					rl.errDev = true
-					opts = append(opts, slog.RegWithPrintToErrorDevice(true))
-					odesc = append(odesc, "errdev")
+					switch r.Intn(4) {
+					case 0:
+						// (the option takes several values, as the mode setters do: the last one is the request)
+						opts = append(opts, slog.RegWithPrintToErrorDevice(false, true))
+						odesc = append(odesc, "errdev(false,true)")
+					case 1:
+						rl.errDev = false // (no value: nothing is requested)
+						opts = append(opts, slog.RegWithPrintToErrorDevice())
+						odesc = append(odesc, "errdev()")
+					default:
+						opts = append(opts, slog.RegWithPrintToErrorDevice(true))
+						odesc = append(odesc, "errdev")
+					}
+				} else if r.P(10) {
+					opts = append(opts, slog.RegWithPrintToErrorDevice(true, false))
+					odesc = append(odesc, "errdev(true,false)")
 				}
 				if r.P(40) {
 					rl.hasClr = true
